@@ -533,6 +533,7 @@ func (c *cache) get(nocache bool, ctx context.Context, url string, start, limit 
 		c.segments[key{start, limit}] = seg
 	}
 	c.pruneSegments()
+	verifhook.Event("cache.segment", c, seg)
 	c.Unlock()
 	verifhook.Release(c)
 
